@@ -19,7 +19,7 @@ def absNode (log : List Entry) (n : Node) : Cell :=
   { key := n.key, present := !n.deleted, flags := n.flags, versions := versionsOf n.key log }
 
 def abs (m : VLog) : Spec :=
-  { cells := m.nodes.map (absNode m.log), clock := m.log.length, marks := m.stages, dirty := m.dirty,
+  { cells := m.nodes.map (absNode m.log), clock := m.log.length, marks := m.stages, guard := m.lastCp, dirty := m.dirty,
     entryLimit := m.entryLimit, bufLimit := m.bufLimit }
 
 /-- every entry links to the previous entry of the same key -/
